@@ -43,6 +43,25 @@ TIERS = {
 }
 
 
+NUM_SHAPES = 16 + 11 * 11      # Envelope!NumShapes
+HANDLERS = ['propagate', 'serverinfo', 'partstatus', 'notify', 'replreq', 'leaderoffset']
+CANON = {'len': 28, 'magicOK': True, 'verOK': True, 'hl': 8, 'crcFlag': False, 'otherFlags': False, 'typeOK': True,
+         'crcOK': True}
+
+
+def shape_sweep(first_id, seed):
+    """every request shape of every internal subject in a well-formed envelope (the shape dimension of
+    MCInternal replayed completely), a few per behaviour so that a dying server loses little"""
+    steps = [{'a': 'Internal', 'h': 'propagate', 'i': CANON, 'pbOK': True, 'shape': k} for k in range(NUM_SHAPES)]
+    steps += [{'a': 'Internal', 'h': h, 'i': CANON, 'pbOK': True, 'shape': k} for h in HANDLERS[1:] for k in range(4)]
+    out = []
+    for k in range(0, len(steps), 24):
+        out.append({'id': first_id + len(out), 'cfg': {'seed': seed},
+                    'steps': steps[k:k + 24] + [{'a': 'PublishRaw', 'i': CANON, 'pbOK': True, 'id': 1, 'shape': 'plain'},
+                                                {'a': 'ReadBack'}]})
+    return out
+
+
 def cfg_set(cfgfile, name):
     text = open(os.path.join(core.SPEC, cfgfile)).read()
     m = re.search(r'^\s*%s\s*=\s*\{([^}]*)\}' % name, text, re.M)
@@ -262,12 +281,13 @@ def run(rep, tier, seed, replay):
                 if a['a'] == 'PublishRaw' and a['pbOK']:
                     a['shape'] = rng.choice(['plain', 'plain', 'hdrNoValue'])
                 if a['a'] == 'Internal' and a['h'] == 'propagate' and a['pbOK']:
-                    a['shape'] = rng.randrange(16)      # the simulation config draws 0..3; all 16 request shapes are used
+                    a['shape'] = rng.randrange(NUM_SHAPES)   # the simulation config draws 0..3; all request shapes are used
                 steps.append(a)
             if steps:
                 if steps[-1]['a'] != 'ReadBack':
                     steps.append({'a': 'ReadBack'})
                 behaviours.append({'id': n + 1, 'cfg': {'seed': seed}, 'steps': steps})
+        behaviours += shape_sweep(len(sims) + 1000, seed)
         npub = run_server(rep, d, behaviours, T['trace'], stats)
     rep.cov['traces_validated_against_impl'] = n1 + n2 + len(behaviours)
     rep.cov['trace_lines_validated'] = stats.get('lines', 0)
